@@ -143,6 +143,10 @@ def element_refs(var, part=None):
             # a datetime element is addressed by value or by position id; the missing
             # element has no value to be addressed by
             out.missing = tuple(c["id"] for c in var["cats"] if c["missing"])
+            if out.missing:
+                # a client that lists the elements by VALUE sends the missing element's
+                # value too - the dict {"?": -1}
+                out.missing = out.missing + ({"?": -1},)
             return out
         cats = var["cats"]
         if var.get("use_order_key"):
@@ -156,7 +160,7 @@ def element_refs(var, part=None):
 
 def _stale_pool(refs):
     miss = list(getattr(refs, "missing", ()))
-    return [STALE] + miss + [str(m) for m in miss[:1]]
+    return [STALE] + miss + [str(m) for m in miss[:1] if not isinstance(m, dict)]
 
 
 @st.composite
@@ -198,7 +202,8 @@ MARGINALS = ["unweighted_base", "weighted_base", "table_proportion", "scale_mean
              "scale_mean_stddev", "scale_mean_stderr", "scale_median"]
 STRAND_MEASURES = ["base_unweighted", "base_weighted", "count_unweighted", "count_weighted",
                    "mean", "percent", "percent_moe", "percent_stddev", "percent_stderr",
-                   "population", "population_moe", "share_sum", "sum"]
+                   "population", "population_moe", "share_sum", "sum", "stddev",
+                   "valid_count_unweighted", "valid_count_weighted"]
 
 
 @st.composite
